@@ -79,7 +79,8 @@ func c09R1(h H) {
 	}
 }
 
-func c09R2(h H) {
+// c09R2Patterns: the former structural formulation, kept for reference and no longer registered.
+func c09R2Patterns(h H) {
 	r := h.r
 	r.Rule("R2", "parser groups tokens by directive: in parser.directive every update of block.Tokens is keyed by the directive name and stores append(block.Tokens[<same key>], <one token>): relative order of a directive's lines is kept and the stored slice never aliases the parser's token array", 1)
 	fn := h.fn("R2", "casketfile", "(*parser).directive")
@@ -119,6 +120,17 @@ func c09R2(h H) {
 	if n < 1 {
 		r.Unresolve("R2", "parser.directive: no update of block.Tokens found")
 	}
+}
+
+func c09R2(h H) {
+	r := h.r
+	r.Rule("R2", "the parser files tokens under their directive's name, as decided by the parser table (E10; the configurations of C10 R8: repeated directives, snippets, imported files, sub-blocks): every directive of a block ends up with exactly its own lines' tokens, in the order written, and stored token lists do not share storage with the parser's token array (an in-place append through a re-sliced list would show as another directive's tokens changing)", 1)
+	bad, _, n, pos := c10ParseTable(h)
+	if n == 0 {
+		r.Unresolve("R2", bad)
+		return
+	}
+	r.Check(bad == "", "R2", "casketfile.(*parser).directive/tokens-filed-by-name", pos, "tokens are filed under the directive's name, in order, as written", sprintf("%d configurations parsed", n), bad)
 }
 
 // derivesSliceOfField: v is (an append onto / φ of) a Slice whose operand is a load of the named field.
@@ -173,7 +185,7 @@ func c09R3(h H) {
 			if _, isSl := underlying(t).(*types.Slice); isSl {
 				return anil{}
 			}
-			return aunk{"site field " + path}
+			return unsetField("site field", path, t)
 		}
 		env := &absEnv{globals: map[string]*aobj{}, noFork: true, maxSteps: 400000}
 		env.ext = func(callee string, args []aval) (aval, bool) {
